@@ -37,7 +37,9 @@ thread_local! {
     static LIVE: RefCell<Vec<i64>> = RefCell::new(vec![]);
     static WILD: RefCell<u64> = RefCell::new(0); // drops of ids never created (garbage read as an element)
     static MUTE: RefCell<bool> = RefCell::new(false); // drops performed by the harness itself: counted, not logged
+    static PH_LIVE: RefCell<i64> = RefCell::new(0); // live placeholder instances (only compared around an operation that overwrites placeholders)
 }
+fn ph_live() -> i64 { PH_LIVE.with(|p| *p.borrow()) }
 thread_local! { static RISKY_OFF: RefCell<bool> = RefCell::new(false); }
 /// operations that abort the process when the repaired checks are missing are left out once the probe has seen an abort
 fn risky_off() -> bool { RISKY_OFF.with(|r| *r.borrow()) }
@@ -46,6 +48,7 @@ fn quiet<Rt>(f: impl FnOnce() -> Rt) -> Rt { MUTE.with(|m| *m.borrow_mut() = tru
 struct El { id: u64 }
 const MAX_ID: u64 = 1 << 22; // ids are handed out consecutively per history; anything above is garbage read as an element
 fn el(id: u64) -> El {
+    if id == PH { PH_LIVE.with(|p| *p.borrow_mut() += 1); }
     if id != PH {
         if id >= MAX_ID { WILD.with(|w| *w.borrow_mut() += 1); }
         else { LIVE.with(|l| { let mut l = l.borrow_mut(); let i = id as usize; if l.len() <= i { l.resize(i + 1, 0); } l[i] += 1; }); }
@@ -65,7 +68,7 @@ fn debug_marked_ids(s: &str) -> Vec<u64> {
 }
 impl Drop for El {
     fn drop(&mut self) {
-        if self.id == PH { return; }
+        if self.id == PH { PH_LIVE.with(|p| *p.borrow_mut() -= 1); return; }
         if self.id >= MAX_ID { WILD.with(|w| *w.borrow_mut() += 1); return; }
         if !MUTE.with(|m| *m.borrow()) { DROPS.with(|d| d.borrow_mut().push(self.id)); }
         LIVE.with(|l| { let mut l = l.borrow_mut(); let i = self.id as usize;
@@ -259,9 +262,13 @@ fn ring_history(cx: &mut Ctx, cap0: u64, ctor: u64, ops: &[Vec<u64>], coq: Coq) 
                        match r { Ok(n) => { ret = vec![4, n as i128]; if n as u64 != k { problem = Some(format!("push_bulk of {} reported {}", k, n)); } shadow.extend(ids.iter().copied()); }
                                  Err(e) => problem = Some(format!("push_bulk refused: {:?}", e)) } }) }
             3 => { coq_ops.push(format!("TQ (PopBulk {})", k));
+                   let ph0 = ph_live();
                    let mut out: Vec<El> = (0..k).map(|_| el(PH)).collect();
                    guarded(|| { let n = q.pop_bulk(&mut out); drops_o = Some(take_drops());
+                       // the values the caller's slice held before are overwritten, so each of them is dropped exactly once (as `out[i] = pop_front()` does)
+                       let ph_left = ph_live() - ph0;
                        let got: Vec<u64> = out.iter().take(n).map(|e| e.id).collect(); drop(out);
+                       if ph_left != k as i64 - n as i64 { problem = Some(format!("pop_bulk({}) wrote {} elements over the caller's slice but dropped {} of the values it held (each overwritten value is dropped once)", k, n, k as i64 - ph_left)); }
                        let m = (k as usize).min(shadow.len()); let want: Vec<u64> = shadow.drain(..m).collect();
                        ret = vec![3]; ret.extend(got.iter().map(|&x| x as i128));
                        if got != want { problem = Some(format!("pop_bulk({}) returned {:?}, a VecDeque drains {:?}", k, got, want)); } }) }
